@@ -5,13 +5,35 @@ from ..core import HEADER, CASE_TYPE, CHECK, MODEL_VIEW, SHARD, CASE_TIMEOUT, ob
 
 ID = "C05"
 THEOREMS = ["C05_encode", "C05_reject_range", "C05_reject_target_ram", "C05_reject_source_ram",
-            "C05_reject_unmapped", "C05_length", "C05_in_step"]
+            "C05_reject_unmapped", "C05_length", "C05_in_step",
+            "C05_text_backward", "C05_text_backward_rejected", "C05_text_forward", "C05_text_forward_rejected", "C05_engine_fail"]
+PROOF_HEADER = "From A816 Require Import Properties.C05 Properties.C05Text."
+
+def instantiate(gen_q):
+    """Per-run: the table side conditions of the text theorems hold on the live tables."""
+    text = (
+        "From A816 Require Import Model.Assemble Spec.BusLaws Proofs.BusProofs Proofs.ExprProofs Proofs.DataText Proofs.LabelText.\n"
+        "Require Import Run.GenBuses Run.GenOpcodes Run.GenLexicon.\n"
+        "Definition L05 : live := {| lv_low := Run.GenBuses.low_rom_bus; lv_high := Run.GenBuses.high_rom_bus; "
+        "lv_busmap := Run.GenBuses.bus_mapping; lv_optable := Run.GenOpcodes.opcode_table; "
+        "lv_prec := Run.GenOpcodes.operator_precedence; "
+        "lv_lex := mk_lexicon Run.GenLexicon.mnemonics Run.GenLexicon.mnemonics_without_operand Run.GenLexicon.keywords |}.\n"
+        "Definition C05_default : config := {| cf_rom := None; cf_defines := [] |}.\n"
+        "Lemma L05_tables : tables_ok L05 C05_default.\n"
+        "Proof. split; [vm_compute; reflexivity|split; [split; [vm_compute; reflexivity|exact I]|vm_compute; reflexivity]]. Qed.\n"
+        "Definition C05_tables_live := L05_tables.\n"
+    )
+    return text, ["C05_tables_live"]
+
 RULE = ("every branch mnemonic of the live table x every displacement -300..+300 (thorough) / a boundary-dense subset "
         "(quick) x forward/backward x placement (window start, middle, last bytes of the window) x {no relocation, "
         "@= to ROM, @= to RAM} x LoROM/HiROM; non-trivial: the branch is accepted and encoded; distinct by source")
 PROVED_NOTE = ("proved for all addresses: ROM run address and target in the same bank, in-window, file offset in step with "
                "the run address => bytes = [opcode; (t-(p+2)) mod 256] iff -128 <= t-(p+2) <= 127, else rejected; RAM or "
-               "unmapped target, RAM run address => rejected; the in-step hypothesis is the invariant proved for C03. "
+               "unmapped target, RAM run address => rejected; the in-step hypothesis is the invariant proved for C03. ON SOURCE TEXT "
+               "(Properties/C05Text.v): `*=<org>` / `name:` / k operand-less instruction lines / `<branch> name` (and the forward form) "
+               "assembles to [op; displacement] with displacement = target - (branch address + 2) for every relative-branch row of the "
+               "live table and every k in range, and is rejected (struct.error) exactly beyond -128 / +127. "
                "Correspondence-only: that cpu_65c816.RelativeJumpOpcode computes what the model computes.")
 MANIFEST = {
     "text": ("Coq theorems over the Gallina model of RelativeJumpOpcode.emit + Resolver (all addresses/displacements); "
